@@ -324,7 +324,9 @@ class ConcreteEngine:
 
     def _get(self, name):
         if name not in self.vals:
-            raise ReplayDiverged('no value for %s' % name)
+            # symbol created after the failed obligation was evaluated in the symbolic run: any value will do
+            self.extended = True
+            return Fraction(1) if self.exact else 1.0
         v = self.vals[name]
         return Fraction(v) if self.exact else float(v)
 
@@ -660,14 +662,24 @@ def sym_float(x=0.0):
 
 
 def sym_int(x=0, *a):
-    """int() shadow: truncation toward zero of a symbolic real"""
+    """int() shadow: truncation toward zero of a symbolic real.  Small magnitudes are enumerated by solver forks and returned
+    as Python ints (so that e.g. random.sample(population, int(N*rho)) keeps working); beyond that a symbolic floor term"""
     if a:
         return int(x, *a)
     if isinstance(x, Sym):
         if ENG.branch(x.e >= 0):
+            for k in range(0, INT_ENUM):
+                if ENG.branch(x.e < k + 1):
+                    return k
             return Sym(z3.ToReal(z3.ToInt(x.e)))
+        for k in range(0, INT_ENUM):
+            if ENG.branch(x.e > -(k + 1)):
+                return -k
         return Sym(-z3.ToReal(z3.ToInt(-x.e)))
     return int(x)   # Fraction / float: truncation, as the builtin
+
+
+INT_ENUM = 6
 
 
 def sym_round(x, ndigits=None):
